@@ -40,6 +40,9 @@ ASSUMPTIONS = [
 ]
 
 
+EXPECTED_PROBES = ['caller_overwrote_split_outputs', 'all_three_formats_compared', 'empty_first_set', 'empty_second_set', 'float_and_exact_floor_differ', 'gap_labels_rejected', 'ids_beyond_float32_exact_range', 'ids_differ_from_row_numbers', 'pct_times_n_is_an_integer', 'single_sample_file_loaded', 'split_reissued_after_prng_perturbation', 'three_or_more_classes']
+
+
 def arms(tier):
     if tier == "thorough":
         return [("mixed", 2_500_000), ("split", 2_500_000)]
@@ -114,7 +117,8 @@ def gen_case(rng, arm, tier, k=0):
                     pct = round(rng.random(), 3)
                 op = [rng.choice(("split", "split_with_index")), pct, rng.randint(0, 6)]
                 splits.append(op)
-                ops.append(op)
+                # the caller may go on to modify what it was given (sort / overwrite in place)
+                ops.append(op + [True] if rng.random() < 0.35 else op)
         elif r < 0.72:
             ops.append(["merge", rng.choice((0.0, 0.25, 0.5, 1.0, round(rng.random(), 2))), rng.randint(0, 6)])
         elif r < 0.88:
@@ -316,6 +320,17 @@ def run_case(case):
                             interesting = True
                 split_seen[key] = (canon, perturb)
                 perturb += 1  # a split with any seed perturbs the global PRNG for everything after it
+                if len(op) > 3 and op[3]:
+                    # the returned arrays belong to the caller now: it sorts / overwrites them
+                    for a_ in res:
+                        a_ = np.asarray(a_)
+                        if a_.size and a_.flags.writeable:
+                            if a_.ndim == 1:
+                                a_.sort()
+                                a_[...] = a_[::-1].copy()
+                            else:
+                                a_[...] = 0
+                    bump(out.probes, "caller_overwrote_split_outputs")
                 pc = pct_class(pct)
                 if pc == "m/n" and 0 < pct < 1:
                     bump(out.probes, "pct_times_n_is_an_integer")
